@@ -123,6 +123,77 @@ fn texts_in_ctx(g: &dyn DynGen, ctx: u8, st: &mut Stats) -> Result<(String, Stri
     Ok(t)
 }
 
+/// a non-output public operation, applied to both twins alike
+fn side_op(a: &mut Box<dyn DynGen>, b: &mut Box<dyn DynGen>, op: &Op, kind: Kind, st: &mut Stats) -> Result<(), E> {
+    st.count("probe:non_output_op_in_history");
+    for g in [a, b] {
+        if kind == Kind::Jitter {
+            let r = g.jitter_ref().unwrap().reads();
+            g.jitter_ref().unwrap().set_cap(r + 2_000);
+        }
+        match op {
+            Op::TimerStats(v) if kind == Kind::Jitter => {
+                let gm = g.as_mut();
+                sut(guard(|| gm.jitter().unwrap().timer_stats(*v)), "timer_stats")?;
+            }
+            Op::SetRounds(r) if kind == Kind::Jitter => {
+                let gm = g.as_mut();
+                let res = guard(|| gm.jitter().unwrap().set_rounds(*r));
+                if *r > 0 {
+                    sut(res, "set_rounds")?;
+                }
+                // set_rounds(0): the documented panic, contained
+            }
+            Op::TestTimer if kind == Kind::Jitter => {
+                let gm = g.as_mut();
+                sut(guard(|| gm.jitter().unwrap().test_timer().is_ok()), "test_timer")?;
+            }
+            Op::Fork => {
+                let c = sut(guard(|| g.boxed_clone()), "clone")?;
+                *g = c;
+            }
+            Op::Snap(f) => {
+                if let Some(img) = sut(guard(|| g.snapshot(*f)), "serialize")? {
+                    if let Ok(r) = sut(guard(|| crate::gens::restore(kind, *f, &img)), "deserialize")? {
+                        *g = r;
+                    }
+                }
+            }
+            Op::Eq => {
+                let c = sut(guard(|| g.boxed_clone()), "clone")?;
+                let _ = sut(guard(|| g.eq_dyn(c.as_ref())), "eq")?;
+            }
+            _ => {}
+        }
+    }
+    Ok(())
+}
+
+fn gen_side_ops(rng: &mut Prng, kind: Kind, ops: &mut Vec<Op>) {
+    if !rng.chance(1, 3) {
+        return;
+    }
+    for _ in 0..rng.range(1, 2) {
+        let op = if kind == Kind::Jitter {
+            match rng.below(7) {
+                0 | 1 => Op::TimerStats(rng.chance(1, 2)),
+                2 => Op::SetRounds(rng.range(1, 5) as u8),
+                3 => Op::SetRounds(0),
+                4 => Op::TestTimer,
+                _ => Op::Fork,
+            }
+        } else {
+            match rng.below(3) {
+                0 => Op::Fork,
+                1 => Op::Eq,
+                _ => Op::Snap(*rng.pick(&[SnapFmt::Bincode, SnapFmt::Json, SnapFmt::JsonReader, SnapFmt::JsonValue, SnapFmt::BincodeFramed])),
+            }
+        };
+        let at = rng.below(ops.len() as u64 + 1) as usize;
+        ops.insert(at, op);
+    }
+}
+
 fn rng_rate(rng: &mut Prng) -> u32 {
     *rng.pick(&[150u32, 400, 800])
 }
@@ -165,6 +236,7 @@ impl Scenario for C17 {
         if kind == Kind::Jitter {
             spec.rounds = Some(rng.range(1, 6) as u8);
             spec.ops = gen_output_ops(rng, kind, 8).into_iter().map(|o| if let Op::Fill(n) = o { Op::Fill(n % 41) } else { o }).collect();
+            gen_side_ops(rng, kind, &mut spec.ops);
             spec.clock = Some(gen_plain_clock(rng, 400));
             spec.clock2 = Some(gen_plain_clock(rng, 400));
             // the process's logging configuration (Trace enabled) must not open the text either
@@ -206,6 +278,7 @@ impl Scenario for C17 {
             spec.seed2 = Some(gen_seed(rng, kind));
             spec.pre = rng.below(pre_range(kind) + 1) as u32;
             spec.ops = gen_output_ops(rng, kind, 16);
+            gen_side_ops(rng, kind, &mut spec.ops);
         }
         spec
     }
@@ -238,12 +311,15 @@ impl C17 {
         let mut b = build(spec, true).map_err(E::End)?;
         let native = if kind.word_bits() == 32 { Call::U32 } else { Call::U64 };
         let mut calls: Vec<Call> = (0..spec.pre).map(|_| native).collect();
+        // non-output operations (timer_stats, set_rounds, test_timer, clone, snapshot/restore, ==) are applied
+        // to both twins right before the texts are compared at the point where they occur
+        let mut sides: std::collections::BTreeMap<usize, Vec<Op>> = Default::default();
         for op in &spec.ops {
             match op {
                 Op::U32 => calls.push(Call::U32),
                 Op::U64 => calls.push(Call::U64),
                 Op::Fill(n) => calls.push(Call::Fill(*n as usize)),
-                _ => {}
+                other => sides.entry(calls.len()).or_default().push(other.clone()),
             }
         }
         if kind == Kind::Jitter && spec.aux.first().copied() == Some(1) {
@@ -261,6 +337,9 @@ impl C17 {
         let mut last_b: Vec<u64> = Vec::new();
         let mut consumed = 0u64;
         for i in 0..=calls.len() {
+            for op in sides.get(&i).map(|v| v.as_slice()).unwrap_or(&[]) {
+                side_op(&mut a, &mut b, op, kind, st)?;
+            }
             // compare texts at this point (after construction, then after every call)
             let da = texts_in_ctx(a.as_ref(), spec.ctx, st)?;
             let db = texts_in_ctx(b.as_ref(), spec.ctx, st)?;
